@@ -10,14 +10,24 @@ TARGET = os.path.join(VERIF, 'out', 'target-replay')
 
 
 def build_replay():
-    env = dict(os.environ, CARGO_TARGET_DIR=TARGET, CARGO_NET_OFFLINE='true')
-    if not os.path.exists(os.path.join(REPLAY_DIR, 'Cargo.lock')):
-        import shutil
-        shutil.copy('/repo/Cargo.lock', os.path.join(REPLAY_DIR, 'Cargo.lock'))
-    r = subprocess.run(['cargo', 'build', '--release', '--offline'], cwd=REPLAY_DIR, env=env, capture_output=True, text=True)
+    import shutil
+    from . import driver
+    crate, target = REPLAY_DIR, TARGET
+    if os.path.realpath(driver.REPO) != '/repo':
+        # a scratch tree is being checked (VERIF_REPO): the replay crate is copied next to the scratch output with its path dependency redirected
+        crate, target = os.path.join(driver.OUT, 'replay-crate'), os.path.join(driver.OUT, 'target-replay')
+        os.makedirs(os.path.join(crate, 'src'), exist_ok=True)
+        shutil.copy(os.path.join(REPLAY_DIR, 'src', 'main.rs'), os.path.join(crate, 'src', 'main.rs'))
+        open(os.path.join(crate, 'Cargo.toml'), 'w').write(open(os.path.join(REPLAY_DIR, 'Cargo.toml')).read().replace('path = "/repo"', f'path = "{driver.REPO}"'))
+        if os.path.exists(os.path.join(REPLAY_DIR, 'Cargo.lock')):
+            shutil.copy(os.path.join(REPLAY_DIR, 'Cargo.lock'), os.path.join(crate, 'Cargo.lock'))
+    env = dict(os.environ, CARGO_TARGET_DIR=target, CARGO_NET_OFFLINE='true')
+    if not os.path.exists(os.path.join(crate, 'Cargo.lock')):
+        shutil.copy(os.path.join(driver.REPO, 'Cargo.lock'), os.path.join(crate, 'Cargo.lock'))
+    r = subprocess.run(['cargo', 'build', '--release', '--offline'], cwd=crate, env=env, capture_output=True, text=True)
     if r.returncode != 0:
         return None, r.stderr[-2000:]
-    return os.path.join(TARGET, 'release', 'verif-replay'), ''
+    return os.path.join(target, 'release', 'verif-replay'), ''
 
 
 # ---- independent big-integer reference of the tower (used only to judge replays) -------------
